@@ -15,7 +15,7 @@ LEVEL = "exploration"
 RULE = ("hostile inputs - random bytes (several distributions, 0..64 KiB), valid streams with bit flips / byte inserts / deletes "
         "/ splices / truncation, and structure-aware hostile streams from the independent wire encoder (declared frame, row and "
         "string lengths up to 2^63, table sizes up to 2^32, 10^5 entries, quoted triples nested past the protobuf recursion "
-        "limit, options rows in odd places, version-2 streams declaring one prefix label 3-200 times with different namespaces, gzip/zlib/bz2/xz/deflate members that would inflate to 0.3-64 MB, options rows with enum/version values the schema does not name, well-formed streams whose strings (language tag, lexical form, datatype, name, prefix, blank-node label, stream name, namespace name) are long single-class runs ending in one odd character, 10^3..10^6 empty frames alone and in front of a well-formed frame (3*10^5 of them always through all six entry points, 10^6 through two), invalid UTF-8, unknown fields, groups) - are fed from BytesIO, "
+        "limit, options rows in odd places, stream names / strings holding format directives with huge field widths on error paths, version-2 streams declaring one prefix label 3-200 times with different namespaces, gzip/zlib/bz2/xz/deflate members that would inflate to 0.3-64 MB, options rows with enum/version values the schema does not name, well-formed streams whose strings (language tag, lexical form, datatype, name, prefix, blank-node label, stream name, namespace name) are long single-class runs ending in one odd character, 10^3..10^6 empty frames alone and in front of a well-formed frame (3*10^5 of them always through all six entry points, 10^6 through two), invalid UTF-8, unknown fields, groups) - are fed from BytesIO, "
         "real files and non-seekable raw / buffered sources to the six parse entry points inside a watchdogged child process with faulthandler. Per input the "
         "child journals start/end, outcome, CPU time, a logical step count (sys.monitoring PY_START inside pyjelly) and the "
         "growth of the resident high-water mark. Violations: interpreter killed by a signal; a non-Exception BaseException; "
@@ -113,7 +113,7 @@ def hostile(rng):
     big = rng.choice([1 << 20, (1 << 31) - 1, 1 << 31, 1 << 32, 1 << 40, 1 << 62, (1 << 63) - 1, (1 << 64) - 1])
     kind = rng.choice(["frame-length", "row-length", "string-length", "table-size", "many-entries", "deep-nesting",
                        "odd-options", "empty-frames", "bad-utf8", "unknown-fields", "many-metadata", "nondelimited-huge",
-                       "entry-id-huge", "ref-huge", "options-repeat-flood", "awkward-strings", "awkward-strings", "enum-values", "compressed-bomb", "namespace-redeclared"])
+                       "entry-id-huge", "ref-huge", "options-repeat-flood", "awkward-strings", "awkward-strings", "enum-values", "compressed-bomb", "namespace-redeclared", "format-directive"])
     head = wire.enc_stream([{"rows": [("options", _opts())]}], True)
     if kind == "frame-length":
         return kind, rng.choice([b"", head]) + wire.enc_varint(big) + rng.randbytes(rng.randint(0, 40))
@@ -160,6 +160,16 @@ def hostile(rng):
         frames = [{"rows": [("options", _opts())], "metadata": [(f"k{i}", b"v" * 10) for i in range(500)]}] + \
             [{"rows": [], "metadata": [("k", b"v")]} for _ in range(2000)]
         return kind, wire.enc_stream(frames, True)
+    if kind == "format-directive":
+        # strings that mean something to a templating / formatting layer (str.format, %-formatting, string.Template),
+        # asking for a huge field width - on paths that report an error (unsupported or mismatching stream types)
+        w = rng.choice([200_000_000, 2_000_000_000])
+        directive = rng.choice(["{physical_type:>%d}" % w, "{logical_type:>%d}" % w, "{0:>%d}" % w, "{:>%d}" % w, "{name:>%d}" % w,
+                                "%%%dd" % w, "%%(x)%ds" % w, "${x}", "{0.__class__}", "{" * 50])
+        o = _opts(stream_name=directive, physical_type=rng.choice([0, 0, 1, 4]), logical_type=rng.choice([0, 1, 3, 2, 5]))
+        rows = [("options", o), ("name", {"id": 0, "value": directive}),
+                ("triple", {"s": ("iri", 0, 0), "p": ("iri", 0, 1), "o": ("lit", directive, "lang", "en")})]
+        return kind, wire.enc_stream([{"rows": rows}], True)
     if kind == "namespace-redeclared":
         # a well-formed version-2 stream that declares the same prefix label again and again with other namespaces,
         # and labels that look like what a renaming scheme would produce (ex, ex1, ex2, ex_1 ...)
@@ -247,6 +257,9 @@ def hostile(rng):
     return "options-repeat-flood", wire.enc_stream([{"rows": rows}], True)
 
 
+FIXED_DIRECTIVES = ["{physical_type:>300000000}", "{logical_type:>300000000}", "{0:>300000000}", "%300000000d"]
+
+
 def valid_tail() -> bytes:
     """One well-formed frame: options, a name and a triple (what follows a long run of keep-alive frames)."""
     rows = [("options", _opts()), ("name", {"id": 0, "value": "urn:x"}),
@@ -261,6 +274,12 @@ def make_inputs(rng, n: int, first_batch: bool = False) -> list:
         if first_batch and k < 2:
             # always present: a long run of empty (keep-alive) frames in front of a well-formed frame
             cls, name, data = "hostile", "empty-frames", b"\x00" * (300_000 if k == 0 else 1_000_000) + valid_tail()
+        elif first_batch and k < 2 + len(FIXED_DIRECTIVES):
+            # always present: a stream NAME that is a format directive, on a stream whose type no entry point supports
+            d = FIXED_DIRECTIVES[k - 2]
+            rows = [("options", _opts(stream_name=d, physical_type=0)), ("name", {"id": 0, "value": "urn:x"}),
+                    ("triple", {"s": ("iri", 0, 0), "p": ("iri", 0, 1), "o": ("bnode", "b")})]
+            cls, name, data = "hostile", "format-directive", wire.enc_stream([{"rows": rows}], True)
         elif x < .3:
             cls, data, name = "random", random_bytes(rng), "random"
         elif x < .65:
@@ -271,9 +290,14 @@ def make_inputs(rng, n: int, first_batch: bool = False) -> list:
         entries = ["generic:flat"] + rng.sample(ENTRY_NAMES[1:], 2)
         if first_batch and k < 2:
             entries = list(ENTRY_NAMES) if k == 0 else ["generic:flat", "rdflib:grouped"]
+        elif first_batch and k < 2 + len(FIXED_DIRECTIVES):
+            entries = list(ENTRY_NAMES)
         out.append({"i": k, "class": cls, "name": name, "hex": data.hex(), "entries": entries,
                     "source": rng.choice(["file", "file", "bytesio", "bytesio", "bytesio", "raw-nonseekable", "buffered-nonseekable"]),
                     "len": len(data)})
+    # the resident-memory oracle reads the child's high-water mark: inputs that legitimately need a lot of memory (their
+    # own size) go LAST in the batch, so that they cannot mask what a small input before them allocates
+    out.sort(key=lambda it: (it["len"] > 50_000, it["len"] if it["len"] > 50_000 else 0))
     return out
 
 
